@@ -177,21 +177,21 @@ Proof.
   destruct (N.eqb_spec ((n + 1) mod 65536) 0); lia.
 Qed.
 
-Lemma alloc_loop_unfold f m start nxt :
-  alloc_loop (S f) m start nxt =
-  if negb (sid_used m nxt) then Ok (nxt, nx nxt)
+Lemma alloc_loop_unfold f used start nxt :
+  alloc_loop (S f) used start nxt =
+  if negb (used nxt) then Ok (nxt, nx nxt)
   else if N.eqb (nx nxt) start then Ok (0, nx nxt)
-  else alloc_loop f m start (nx nxt).
+  else alloc_loop f used start (nx nxt).
 Proof. reflexivity. Qed.
 
-(* safety: whatever the loop returns is 0 or a free id in 1..65535; the counter stays in 1..65535 *)
-Lemma alloc_loop_sound fuel m start : forall nxt sid n',
-  0 < nxt < 65536 -> alloc_loop fuel m start nxt = Ok (sid, n') ->
-  0 < n' < 65536 /\ (sid = 0 \/ (m !! sid = None /\ 0 < sid < 65536)).
+(* safety: whatever the loop returns is 0 or an id in 1..65535 that is not in use; the counter stays in 1..65535 *)
+Lemma alloc_loop_sound fuel used start : forall nxt sid n',
+  0 < nxt < 65536 -> alloc_loop fuel used start nxt = Ok (sid, n') ->
+  0 < n' < 65536 /\ (sid = 0 \/ (used sid = false /\ 0 < sid < 65536)).
 Proof.
   induction fuel as [|f IH]; intros nxt sid n' Hn Ha; [discriminate|].
   rewrite alloc_loop_unfold in Ha. pose proof (nx_range nxt) as Hr.
-  unfold sid_used in Ha. destruct (m !! nxt) eqn:El; simpl in Ha.
+  destruct (used nxt) eqn:El; simpl in Ha.
   - destruct (N.eqb (nx nxt) start).
     + inversion Ha; subst. split; [lia | left; reflexivity].
     + eapply IH; [|exact Ha]. lia.
@@ -215,26 +215,26 @@ Proof. unfold pos. lia. Qed.
 
 (* completeness: with enough fuel the loop scans every id once; it answers 0 only when all
    65535 ids are in use, and never runs out of fuel *)
-Lemma alloc_loop_complete m start : 0 < start < 65536 ->
+Lemma alloc_loop_complete used start : 0 < start < 65536 ->
   forall fuel nxt, 0 < nxt < 65536 ->
-  (forall j, 0 < j < 65536 -> pos start j < pos start nxt -> m !! j <> None) ->
+  (forall j, 0 < j < 65536 -> pos start j < pos start nxt -> used j = true) ->
   65535 <= N.of_nat fuel + pos start nxt ->
-  exists sid n', alloc_loop fuel m start nxt = Ok (sid, n') /\
-    ((sid <> 0 /\ m !! sid = None) \/ (sid = 0 /\ forall j, 0 < j < 65536 -> m !! j <> None)).
+  exists sid n', alloc_loop fuel used start nxt = Ok (sid, n') /\
+    ((sid <> 0 /\ used sid = false) \/ (sid = 0 /\ forall j, 0 < j < 65536 -> used j = true)).
 Proof.
   intros Hs. induction fuel as [|f IH]; intros nxt Hn Hused Hfuel.
   - pose proof (pos_bound start nxt). lia.
-  - rewrite alloc_loop_unfold. unfold sid_used. destruct (m !! nxt) eqn:El; simpl.
+  - rewrite alloc_loop_unfold. destruct (used nxt) eqn:El; simpl.
     + destruct (N.eqb_spec (nx nxt) start) as [He|Hne].
       * exists 0, (nx nxt). split; [reflexivity|]. right. split; [reflexivity|].
         intros j Hj. pose proof (pos_last start nxt Hs Hn He) as Hl.
         destruct (N.eq_dec (pos start j) (pos start nxt)) as [Hp|Hp].
-        -- apply pos_inj in Hp; auto. subst j. congruence.
+        -- apply pos_inj in Hp; auto. subst j. exact El.
         -- apply Hused; [exact Hj|]. pose proof (pos_bound start j). lia.
       * pose proof (nx_range nxt) as Hr. pose proof (pos_nx start nxt Hs Hn Hne) as Hp.
         apply IH; [lia| |lia].
         intros j Hj Hlt. destruct (N.eq_dec (pos start j) (pos start nxt)) as [Hq|Hq].
-        -- apply pos_inj in Hq; auto. subst j. congruence.
+        -- apply pos_inj in Hq; auto. subst j. exact El.
         -- apply Hused; [exact Hj | lia].
     + exists nxt, (nx nxt). split; [reflexivity|]. left. split; [lia | exact El].
 Qed.
@@ -242,44 +242,174 @@ Qed.
 Lemma alloc_fuel_enough : 65535 <= N.of_nat alloc_fuel.
 Proof. unfold alloc_fuel. lia. Qed.
 
-Lemma norm_next_range n : n < 65536 -> 0 < norm_next Repaired n < 65536.
-Proof. unfold norm_next; simpl. destruct (N.eqb_spec n 0); lia. Qed.
+Lemma norm_next_range v n : v_sid_guard v = true -> n < 65536 -> 0 < norm_next v n < 65536.
+Proof. unfold norm_next. intros ->. destruct (N.eqb_spec n 0); lia. Qed.
 
-Lemma allocate_sound v m nxt sid n' : 0 < norm_next v nxt < 65536 ->
-  allocate v m nxt = Ok (sid, n') ->
-  0 < n' < 65536 /\ (sid = 0 \/ (m !! sid = None /\ 0 < sid < 65536)).
+Lemma allocate_sound v s sid n' : 0 < norm_next v (next s) < 65536 ->
+  allocate v s = Ok (sid, n') ->
+  0 < n' < 65536 /\ (sid = 0 \/ (id_used v s sid = false /\ 0 < sid < 65536)).
 Proof. unfold allocate. intros Hn Ha. eapply alloc_loop_sound; eauto. Qed.
 
-Lemma allocate_complete v m nxt : 0 < norm_next v nxt < 65536 ->
-  exists sid n', allocate v m nxt = Ok (sid, n') /\
-    ((sid <> 0 /\ m !! sid = None) \/ (sid = 0 /\ forall j, 0 < j < 65536 -> m !! j <> None)).
+Lemma allocate_complete v s : 0 < norm_next v (next s) < 65536 ->
+  exists sid n', allocate v s = Ok (sid, n') /\
+    ((sid <> 0 /\ id_used v s sid = false) \/ (sid = 0 /\ forall j, 0 < j < 65536 -> id_used v s j = true)).
 Proof.
   intros Hn. unfold allocate. apply alloc_loop_complete; auto.
   - intros j Hj Hlt. unfold pos in Hlt. lia.
   - pose proof alloc_fuel_enough. lia.
 Qed.
 
+Lemma id_used_false v s k : id_used v s k = false ->
+  by_sid s !! k = None /\ (v_reserve v = true -> forall x, In x (pend s) -> s_sid x <> k).
+Proof.
+  unfold id_used, sid_used. intros Hu. apply orb_false_iff in Hu as [H1 H2].
+  split; [destruct (by_sid s !! k); [discriminate | reflexivity]|].
+  intros Hr x Hx He. rewrite Hr in H2. simpl in H2. unfold pend_has in H2.
+  assert (existsb (fun y => N.eqb (s_sid y) k) (pend s) = true) as Hc.
+  { apply existsb_exists. exists x. split; [exact Hx | apply N.eqb_eq; exact He]. }
+  congruence.
+Qed.
+
+Lemma pend_has_false l k : pend_has l k = false -> forall x, In x l -> s_sid x <> k.
+Proof.
+  unfold pend_has. intros Hf x Hx He.
+  assert (existsb (fun y => N.eqb (s_sid y) k) l = true) as Hc
+    by (apply existsb_exists; exists x; split; [exact Hx | apply N.eqb_eq; exact He]).
+  congruence.
+Qed.
+
+(* ------------------------------------------------------------------ handlePADR up to the allocation *)
+Lemma padr_begin_cases v e s t p r : padr_begin v e s t p = Some r ->
+  r = (s, None) \/
+  exists tg sid n', parse_tags p = Ok tg /\
+    validate (e_H e) (e_ttl e) (e_now_ns e) (t_cookie tg) t = true /\ e_grp e t = true /\
+    allocate v s = Ok (sid, n') /\
+    ((v_sid_guard v && N.eqb sid 0 = true /\ r = (set_next s n', None)) \/
+     (v_sid_guard v && N.eqb sid 0 = false /\
+      r = (bump_ctr (set_next s n'), Some {| s_uid := ctr s; s_sid := sid; s_tup := t |}))).
+Proof.
+  unfold padr_begin. destruct (parse_tags p) as [tg|?| |]; try discriminate.
+  - destruct (validate _ _ _ _ _) eqn:Ev; simpl; [|intros Hx; inversion Hx; auto].
+    destruct (e_grp e t) eqn:Eg; simpl; [|intros Hx; inversion Hx; auto].
+    destruct (allocate v s) as [[sid n']|?| |] eqn:Ea; try discriminate.
+    destruct (v_sid_guard v && N.eqb sid 0) eqn:Eg0; intros Hx; inversion Hx; subst; right;
+      exists tg, sid, n'; repeat split; auto.
+  - intros Hx; inversion Hx; auto.
+Qed.
+
+Lemma padr_begin_novalid v e s t p r : padr_begin v e s t p = Some r ->
+  (forall tg, parse_tags p = Ok tg -> validate (e_H e) (e_ttl e) (e_now_ns e) (t_cookie tg) t = false) ->
+  r = (s, None).
+Proof.
+  intros Hb Hv. apply padr_begin_cases in Hb as [->|(tg & sid & n' & Hp & Hval & _)]; [reflexivity|].
+  rewrite (Hv tg Hp) in Hval. discriminate.
+Qed.
+
+Lemma padr_begin_frame v e s t p s1 ox : padr_begin v e s t p = Some (s1, ox) ->
+  by_sid s1 = by_sid s /\ by_tup s1 = by_tup s /\ by_uidx s1 = by_uidx s /\ by_attr s1 = by_attr s /\
+  attr_of s1 = attr_of s /\ pend s1 = pend s /\
+  match ox with Some x => s_tup x = t /\ s_uid x = ctr s /\ ctr s1 = N.succ (ctr s) | None => True end.
+Proof.
+  intros Hb. apply padr_begin_cases in Hb as [Hx|(tg & sid & n' & _ & _ & _ & _ & [[_ Hx]|[_ Hx]])];
+    inversion Hx; subst; simpl; repeat split; auto.
+Qed.
+
 (* ------------------------------------------------------------------ table invariant *)
 Definition live (s : st) (x : sess) : Prop :=
   (exists k, by_sid s !! k = Some x) \/ (exists t, by_tup s !! t = Some x).
+(* live, or built by a handlePADR that has not indexed it yet *)
+Definition alive (s : st) (x : sess) : Prop := live s x \/ In x (pend s).
 
 Record Inv (s : st) : Prop := {
   inv_sid : forall k x, by_sid s !! k = Some x -> s_sid x = k /\ 0 < k < 65536;
   inv_tup : forall t x, by_tup s !! t = Some x -> s_tup x = t /\ by_sid s !! (s_sid x) = Some x;
   inv_next : next s < 65536;
-  inv_ctr : forall k x, by_sid s !! k = Some x -> s_uid x < ctr s
+  inv_ctr : forall k x, by_sid s !! k = Some x -> s_uid x < ctr s;
+  inv_uidx : forall k x, by_uidx s !! k = Some x -> s_uid x = k /\ k < ctr s;
+  inv_pend : forall x, In x (pend s) ->
+     0 < s_sid x < 65536 /\ by_sid s !! s_sid x = None /\ s_uid x < ctr s /\ by_uidx s !! s_uid x = None;
+  inv_pend_sid : NoDup (map s_sid (pend s));
+  inv_pend_uid : NoDup (map s_uid (pend s))
 }.
 
 Lemma Inv_st0 : Inv st0.
-Proof. split; simpl; intros; try lia; rewrite lookup_empty in *; discriminate. Qed.
-
-Lemma Inv_with_next s n : Inv s -> n < 65536 -> Inv (with_next s n).
-Proof. intros [A B C D] Hn. split; simpl; auto. Qed.
-
-Lemma Inv_add s x : Inv s -> by_sid s !! s_sid x = None -> 0 < s_sid x < 65536 -> s_uid x = ctr s ->
-  Inv (bump_ctr (add_indexes x s)).
 Proof.
-  intros [A B C D] Hfree Hr Hu. split; simpl.
+  split; simpl; intros; try lia; try (rewrite lookup_empty in *; discriminate); try contradiction; constructor.
+Qed.
+
+Lemma Inv_set_next s n : Inv s -> n < 65536 -> Inv (set_next s n).
+Proof. intros [A B C D E F G H] Hn. split; simpl; auto. Qed.
+
+Lemma Inv_set_attr_of s u a : Inv s -> Inv (set_attr_of s u a).
+Proof. intros [A B C D E F G H]. split; simpl; auto. Qed.
+
+Lemma sess_eqb_eq a b : sess_eqb a b = true <-> a = b.
+Proof.
+  destruct a as [u1 s1 t1], b as [u2 s2 t2]. unfold sess_eqb; simpl.
+  rewrite !andb_true_iff, !N.eqb_eq, tuple_eqb_eq. split.
+  - intros [[-> ->] ->]; reflexivity.
+  - intros Hx; inversion Hx; auto.
+Qed.
+
+(* what a (guarded or unguarded) delete leaves is a sub-map; and it does remove the session's own entry *)
+Lemma del_if_sub {K} `{Countable K} g x (k k' : K) (m : gmap K sess) y :
+  del_if g x k m !! k' = Some y -> m !! k' = Some y.
+Proof.
+  unfold del_if. destruct g.
+  - destruct (m !! k) as [z|] eqn:E; [|auto]. destruct (sess_eqb z x); [|auto].
+    intros Hl. apply lookup_delete_Some in Hl as [_ Hl]. exact Hl.
+  - intros Hl. apply lookup_delete_Some in Hl as [_ Hl]. exact Hl.
+Qed.
+Lemma del_ifN_sub g x (k k' : N) (m : Nmap sess) y : del_ifN g x k m !! k' = Some y -> m !! k' = Some y.
+Proof.
+  unfold del_ifN. destruct g.
+  - destruct (m !! k) as [z|] eqn:E; [|auto]. destruct (sess_eqb z x); [|auto].
+    intros Hl. apply lookup_delete_Some in Hl as [_ Hl]. exact Hl.
+  - intros Hl. apply lookup_delete_Some in Hl as [_ Hl]. exact Hl.
+Qed.
+Lemma del_if_own {K} `{Countable K} g x (k : K) (m : gmap K sess) : m !! k = Some x -> del_if g x k m !! k = None.
+Proof.
+  intros Hm. unfold del_if. destruct g; [|apply lookup_delete].
+  rewrite Hm. replace (sess_eqb x x) with true by (symmetry; apply sess_eqb_eq; reflexivity). apply lookup_delete.
+Qed.
+Lemma del_ifN_own g x (k : N) (m : Nmap sess) : m !! k = Some x -> del_ifN g x k m !! k = None.
+Proof.
+  intros Hm. unfold del_ifN. destruct g; [|apply lookup_delete].
+  rewrite Hm. replace (sess_eqb x x) with true by (symmetry; apply sess_eqb_eq; reflexivity). apply lookup_delete.
+Qed.
+Lemma del_ifN_ne g x (k k' : N) (m : Nmap sess) : k <> k' -> del_ifN g x k m !! k' = m !! k'.
+Proof.
+  intros Hne. unfold del_ifN. destruct g; [|apply lookup_delete_ne; exact Hne].
+  destruct (m !! k) as [z|]; [|reflexivity]. destruct (sess_eqb z x); [apply lookup_delete_ne; exact Hne | reflexivity].
+Qed.
+Lemma del_if_ne {K} `{Countable K} g x (k k' : K) (m : gmap K sess) : k <> k' -> del_if g x k m !! k' = m !! k'.
+Proof.
+  intros Hne. unfold del_if. destruct g; [|apply lookup_delete_ne; exact Hne].
+  destruct (m !! k) as [z|]; [|reflexivity]. destruct (sess_eqb z x); [apply lookup_delete_ne; exact Hne | reflexivity].
+Qed.
+(* a guarded delete keeps every entry that points to another session *)
+Lemma del_if_keep {K} `{Countable K} x (k k' : K) (m : gmap K sess) y :
+  m !! k' = Some y -> y <> x -> del_if true x k m !! k' = Some y.
+Proof.
+  intros Hm Hne. unfold del_if. destruct (m !! k) as [z|] eqn:E; [|exact Hm].
+  destruct (sess_eqb z x) eqn:Eq; [|exact Hm]. apply sess_eqb_eq in Eq. subst z.
+  rewrite lookup_delete_ne; [exact Hm|]. intros <-. congruence.
+Qed.
+Lemma del_ifN_keep x (k k' : N) (m : Nmap sess) y :
+  m !! k' = Some y -> y <> x -> del_ifN true x k m !! k' = Some y.
+Proof.
+  intros Hm Hne. unfold del_ifN. destruct (m !! k) as [z|] eqn:E; [|exact Hm].
+  destruct (sess_eqb z x) eqn:Eq; [|exact Hm]. apply sess_eqb_eq in Eq. subst z.
+  rewrite lookup_delete_ne; [exact Hm|]. intros <-. congruence.
+Qed.
+
+(* insert a session whose id and uid are unused and not pending *)
+Lemma Inv_add s a x : Inv s -> by_sid s !! s_sid x = None -> 0 < s_sid x < 65536 -> s_uid x < ctr s ->
+  by_uidx s !! s_uid x = None ->
+  (forall y, In y (pend s) -> s_sid y <> s_sid x /\ s_uid y <> s_uid x) ->
+  Inv (add_indexes a x s).
+Proof.
+  intros [A B C D E F G H] Hfree Hr Hu Hux Hp. split; simpl; auto.
   - intros k y Hl. destruct (N.eq_dec (s_sid x) k) as [<-|Hne].
     + rewrite lookup_insert in Hl. inversion Hl; subst. auto.
     + rewrite lookup_insert_ne in Hl by exact Hne. auto.
@@ -287,60 +417,140 @@ Proof.
     + rewrite lookup_insert in Hl. inversion Hl; subst. split; [reflexivity | apply lookup_insert].
     + rewrite lookup_insert_ne in Hl by exact Hne. destruct (B _ _ Hl) as [B1 B2]. split; [exact B1|].
       rewrite lookup_insert_ne; [exact B2|]. intros He. rewrite He in Hfree. congruence.
-  - exact C.
   - intros k y Hl. destruct (N.eq_dec (s_sid x) k) as [<-|Hne].
-    + rewrite lookup_insert in Hl. inversion Hl; subst. lia.
-    + rewrite lookup_insert_ne in Hl by exact Hne. specialize (D _ _ Hl). lia.
+    + rewrite lookup_insert in Hl. inversion Hl; subst. exact Hu.
+    + rewrite lookup_insert_ne in Hl by exact Hne. eauto.
+  - intros k y Hl. destruct (N.eq_dec (s_uid x) k) as [<-|Hne].
+    + rewrite lookup_insert in Hl. inversion Hl; subst. auto.
+    + rewrite lookup_insert_ne in Hl by exact Hne. auto.
+  - intros y Hy. destruct (F y Hy) as (F1 & F2 & F3 & F4). destruct (Hp y Hy) as [P1 P2].
+    split; [exact F1|]. split; [|split; [exact F3|]].
+    + rewrite lookup_insert_ne; auto.
+    + rewrite lookup_insert_ne; auto.
 Qed.
 
-Lemma Inv_remove s k x : Inv s -> by_sid s !! k = Some x -> Inv (remove_indexes x s).
+Lemma Inv_bump s : Inv s -> Inv (bump_ctr s).
 Proof.
-  intros [A B C D] Hx. split; simpl.
-  - intros k' y Hl. apply lookup_delete_Some in Hl as [_ Hl]. auto.
-  - intros t y Hl. apply lookup_delete_Some in Hl as [Hne Hl]. destruct (B _ _ Hl) as [B1 B2].
-    split; [exact B1|]. apply lookup_delete_Some. split; [|exact B2].
-    intros He. destruct (A _ _ Hx) as [A1 _]. rewrite A1 in He. rewrite <- He, Hx in B2.
-    inversion B2; subst. congruence.
-  - exact C.
-  - intros k' y Hl. apply lookup_delete_Some in Hl as [_ Hl]. eauto.
+  intros [A B C D E F G H]. split; simpl; auto.
+  - intros k x Hl. specialize (D _ _ Hl). lia.
+  - intros k x Hl. destruct (E _ _ Hl). split; [auto | lia].
+  - intros x Hx. destruct (F x Hx) as (F1 & F2 & F3 & F4). split; [exact F1|]. split; [exact F2|]. split; [lia | exact F4].
+Qed.
+
+Lemma Inv_remove v s k x : Inv s -> by_sid s !! k = Some x -> Inv (remove_indexes v x s).
+Proof.
+  intros [A B C D E F G H] Hx. destruct (A _ _ Hx) as [A1 A2]. split; simpl; auto.
+  - intros k' y Hl. apply del_ifN_sub in Hl. auto.
+  - intros t y Hl. pose proof Hl as Hl0. apply del_if_sub in Hl. destruct (B _ _ Hl) as [B1 B2].
+    split; [exact B1|]. destruct (N.eq_dec (s_sid x) (s_sid y)) as [He|Hne].
+    + exfalso. rewrite <- He, A1, Hx in B2. inversion B2; subst y.
+      rewrite <- B1 in Hl0. rewrite del_if_own in Hl0; [discriminate|]. rewrite B1. exact Hl.
+    + rewrite del_ifN_ne by exact Hne. exact B2.
+  - intros k' y Hl. apply del_ifN_sub in Hl. eauto.
+  - intros k' y Hl. apply del_ifN_sub in Hl. eauto.
+  - intros y Hy. destruct (F y Hy) as (F1 & F2 & F3 & F4). split; [exact F1|]. split; [|split; [exact F3|]].
+    + destruct (del_ifN (v_guard_remove v) x (s_sid x) (by_sid s) !! s_sid y) eqn:Eq1; [|reflexivity].
+      apply del_ifN_sub in Eq1. congruence.
+    + destruct (del_ifN (v_guard_remove v) x (s_uid x) (by_uidx s) !! s_uid y) eqn:Eq2; [|reflexivity].
+      apply del_ifN_sub in Eq2. congruence.
 Qed.
 
 Lemma u16_lt n : u16 n < 65536.
 Proof. unfold u16. lia. Qed.
 
-Lemma step_Inv e s o s' r : Inv s -> step Repaired e s o = Some (s', r) -> Inv s'.
+Lemma take_pend_perm u : forall l x r, take_pend u l = Some (x, r) -> l ≡ₚ x :: r /\ s_uid x = u.
 Proof.
-  intros HI Hs. destruct o as [t|t p|t sid|t sid|sid|sid t|n]; simpl in Hs.
+  induction l as [|y l IH]; intros x r Ht; [discriminate|]. simpl in Ht.
+  destruct (N.eqb_spec (s_uid y) u) as [He|Hne].
+  - inversion Ht; subst. auto.
+  - destruct (take_pend u l) as [[z r']|] eqn:E; [|discriminate]. inversion Ht; subst.
+    destruct (IH _ _ eq_refl) as [Hp Hu]. split; [|exact Hu]. rewrite Hp. apply perm_swap.
+Qed.
+
+(* the variants for which the invariant is inductive over every interleaving *)
+Definition reserving (v : variant) : Prop := v_sid_guard v = true /\ v_reserve v = true.
+
+Lemma padr_begin_Inv v e s t p s1 ox : reserving v -> Inv s -> padr_begin v e s t p = Some (s1, ox) ->
+  Inv s1 /\ pend s1 = pend s /\
+  match ox with
+  | None => True
+  | Some x => by_sid s1 !! s_sid x = None /\ 0 < s_sid x < 65536 /\ s_uid x < ctr s1 /\
+              by_uidx s1 !! s_uid x = None /\ s_tup x = t /\
+              (forall y, In y (pend s1) -> s_sid y <> s_sid x /\ s_uid y <> s_uid x)
+  end.
+Proof.
+  intros [Hg Hr] HI Hb. apply padr_begin_cases in Hb as [Hx|(tg & sid & n' & _ & _ & _ & Ha & Hc)].
+  - inversion Hx; subst. auto.
+  - apply allocate_sound in Ha; [|apply norm_next_range; [exact Hg | apply HI]]. destruct Ha as [Hn' Hsid].
+    destruct Hc as [[_ Hx]|[Hz Hx]]; inversion Hx; subst.
+    + split; [apply Inv_set_next; [exact HI | lia] | auto].
+    + split; [apply Inv_bump, Inv_set_next; [exact HI | lia]|]. split; [reflexivity|]. simpl.
+      rewrite Hg in Hz. simpl in Hz. apply N.eqb_neq in Hz. destruct Hsid as [?|[Hu Hrg]]; [contradiction|].
+      apply id_used_false in Hu as [Hu1 Hu2].
+      split; [exact Hu1|]. split; [exact Hrg|]. split; [lia|]. split; [|split; [reflexivity|]].
+      * destruct (by_uidx s !! ctr s) as [y|] eqn:E; [|reflexivity]. destruct (inv_uidx _ HI _ _ E). lia.
+      * intros y Hy. split; [apply Hu2; auto|]. destruct (inv_pend _ HI y Hy) as (_ & _ & F3 & _). lia.
+Qed.
+
+Lemma step_Inv v e s o s' r : reserving v -> Inv s -> step v e s o = Some (s', r) -> Inv s'.
+Proof.
+  intros Hv HI Hs. destruct o as [t|t p|t p|u|t sid|t sid|t sid a|sid|sid t a|n]; simpl in Hs.
   - destruct (e_grp e t); inversion Hs; subst; exact HI.
-  - destruct (parse_tags p) as [tg|?| |]; try discriminate; [|inversion Hs; subst; exact HI].
-    destruct (validate _ _ _ _ _); simpl in Hs; [|inversion Hs; subst; exact HI].
-    destruct (e_grp e t); simpl in Hs; [|inversion Hs; subst; exact HI].
-    destruct (allocate Repaired (by_sid s) (next s)) as [[sid n']|?| |] eqn:Ea; try discriminate.
-    apply allocate_sound in Ea; [|apply norm_next_range, HI]. destruct Ea as [Hn' Hsid].
-    destruct (N.eqb_spec sid 0) as [->|Hne]; simpl in Hs; inversion Hs; subst.
-    + apply Inv_with_next; [exact HI | lia].
-    + destruct Hsid as [?|[Hfree Hr]]; [contradiction|].
-      apply Inv_add; simpl; auto. apply Inv_with_next; [exact HI | lia].
+  - destruct (padr_begin v e s t p) as [[s1 [x|]]|] eqn:Eb; inversion Hs; subst;
+      destruct (padr_begin_Inv _ _ _ _ _ _ _ Hv HI Eb) as (HI1 & Hp & Hx); [|exact HI1].
+    destruct Hx as (X1 & X2 & X3 & X4 & _ & X6). apply Inv_add; auto.
+  - destruct (padr_begin v e s t p) as [[s1 [x|]]|] eqn:Eb; inversion Hs; subst;
+      destruct (padr_begin_Inv _ _ _ _ _ _ _ Hv HI Eb) as (HI1 & Hp & Hx); [|exact HI1].
+    destruct Hx as (X1 & X2 & X3 & X4 & _ & X6). destruct HI1 as [A B C D E F G H]. split; simpl; auto.
+    + intros y Hy. apply in_app_or in Hy as [Hy|[<-|[]]]; auto.
+    + rewrite map_app. simpl. apply NoDup_app. split; [exact G|]. split; [|repeat constructor; intros []%elem_of_nil].
+      intros k Hk1 Hk2. apply elem_of_list_singleton in Hk2. subst k.
+      apply elem_of_list_In, in_map_iff in Hk1 as (y & Hy1 & Hy2). destruct (X6 y Hy2). contradiction.
+    + rewrite map_app. simpl. apply NoDup_app. split; [exact H|]. split; [|repeat constructor; intros []%elem_of_nil].
+      intros k Hk1 Hk2. apply elem_of_list_singleton in Hk2. subst k.
+      apply elem_of_list_In, in_map_iff in Hk1 as (y & Hy1 & Hy2). destruct (X6 y Hy2). contradiction.
+  - destruct (take_pend u (pend s)) as [[x rest]|] eqn:Et; [|discriminate]. inversion Hs; subst.
+    apply take_pend_perm in Et as [Hperm _].
+    assert (Hin : forall y, In y rest -> In y (pend s)).
+    { intros y Hy. apply elem_of_list_In. rewrite Hperm. right. apply elem_of_list_In. exact Hy. }
+    assert (Hxin : In x (pend s)) by (apply elem_of_list_In; rewrite Hperm; left).
+    pose proof (inv_pend_sid _ HI) as Gs. pose proof (inv_pend_uid _ HI) as Gu.
+    rewrite Hperm in Gs, Gu. simpl in Gs, Gu. apply NoDup_cons in Gs as [Gs1 Gs2]. apply NoDup_cons in Gu as [Gu1 Gu2].
+    destruct (inv_pend _ HI x Hxin) as (F1 & F2 & F3 & F4).
+    apply Inv_add; simpl; auto.
+    + destruct HI as [A B C D E F G H]. split; simpl; auto.
+    + intros y Hy. split; intros He.
+      * apply Gs1. rewrite <- He. apply elem_of_list_In, in_map. exact Hy.
+      * apply Gu1. rewrite <- He. apply elem_of_list_In, in_map. exact Hy.
   - destruct (by_sid s !! sid) as [x|] eqn:El; [|inversion Hs; subst; exact HI].
-    destruct (owner_ok Repaired x t); inversion Hs; subst; [|exact HI]. eapply Inv_remove; eauto.
+    destruct (owner_ok v x t); inversion Hs; subst; [|exact HI]. eapply Inv_remove; eauto.
   - destruct (by_sid s !! sid) as [x|] eqn:El; [|inversion Hs; subst; exact HI].
-    destruct (owner_ok Repaired x t); inversion Hs; subst; exact HI.
+    destruct (owner_ok v x t); inversion Hs; subst; exact HI.
+  - destruct (by_sid s !! sid) as [x|] eqn:El; [|inversion Hs; subst; exact HI].
+    destruct (owner_ok v x t); inversion Hs; subst; [|exact HI]. apply Inv_set_attr_of; exact HI.
   - destruct (by_sid s !! sid) as [x|] eqn:El; inversion Hs; subst; [|exact HI]. eapply Inv_remove; eauto.
   - unfold sid_used in Hs. destruct (N.eqb_spec sid 0); simpl in Hs; [discriminate|].
     destruct (N.ltb_spec sid 65536); simpl in Hs; [|discriminate].
-    destruct (by_sid s !! sid) eqn:El; [discriminate|]. inversion Hs; subst.
-    apply Inv_with_next.
-    + apply Inv_add; simpl; auto. lia.
-    + destruct (N.leb (next s) sid); [apply u16_lt | apply HI].
-  - destruct (N.ltb_spec n 65536); inversion Hs; subst. apply Inv_with_next; auto.
+    destruct (by_sid s !! sid) eqn:El; [discriminate|]. simpl in Hs.
+    destruct (pend_has (pend s) sid) eqn:Ep; [discriminate|]. inversion Hs; subst.
+    apply Inv_set_next; [|destruct (N.leb (next s) sid); [apply u16_lt | apply HI]].
+    assert (HI0 : Inv (set_attr_of s (ctr s) a)) by (apply Inv_set_attr_of; exact HI).
+    assert (Hadd : Inv (add_indexes (get_attr (set_attr_of s (ctr s) a) (ctr s))
+                          {| s_uid := ctr s; s_sid := sid; s_tup := t |} (bump_ctr (set_attr_of s (ctr s) a)))).
+    { apply Inv_add; simpl; auto; try lia.
+      - apply Inv_bump; exact HI0.
+      - destruct (by_uidx s !! ctr s) as [y|] eqn:E; [|reflexivity]. destruct (inv_uidx _ HI _ _ E). lia.
+      - intros y Hy. split; [eapply pend_has_false; eauto|]. destruct (inv_pend _ HI y Hy) as (_ & _ & F3 & _). lia. }
+    destruct Hadd as [A B C D E0 F G0 H0]. split; simpl in *; auto.
+  - destruct (N.ltb_spec n 65536); inversion Hs; subst. apply Inv_set_next; auto.
 Qed.
 
-Lemma run_Inv e : forall ops s s' outs, Inv s -> run Repaired e s ops = Some (s', outs) -> Inv s'.
+Lemma run_Inv v e : reserving v -> forall ops s s' outs, Inv s -> run v e s ops = Some (s', outs) -> Inv s'.
 Proof.
-  induction ops as [|o r IH]; simpl; intros s s' outs HI Hr.
+  intros Hv. induction ops as [|o r IH]; simpl; intros s s' outs HI Hr.
   - inversion Hr; subst; exact HI.
-  - destruct (step Repaired e s o) as [[s1 x]|] eqn:Es; [|discriminate].
-    destruct (run Repaired e s1 r) as [[s2 xs]|] eqn:Er; [|discriminate].
+  - destruct (step v e s o) as [[s1 x]|] eqn:Es; [|discriminate].
+    destruct (run v e s1 r) as [[s2 xs]|] eqn:Er; [|discriminate].
     inversion Hr; subst. eapply IH; [|exact Er]. eapply step_Inv; eauto.
 Qed.
 
@@ -351,70 +561,220 @@ Proof.
   - apply (inv_tup _ HI _ _ Ht).
 Qed.
 
-Lemma sid_distinct_nonzero_inv s x y : Inv s -> live s x -> live s y ->
-  0 < s_sid x < 65536 /\ (s_sid x = s_sid y -> x = y).
+Lemma NoDup_map_inj {A B} (f : A -> B) (l : list A) x y :
+  NoDup (map f l) -> In x l -> In y l -> f x = f y -> x = y.
 Proof.
-  intros HI Hx Hy. apply live_in_sid in Hx; auto. apply live_in_sid in Hy; auto.
-  split; [apply (inv_sid _ HI _ _ Hx)|]. intros He. rewrite He in Hx. congruence.
+  induction l as [|z l IH]; simpl; intros Hnd Hx Hy He; [contradiction|].
+  apply NoDup_cons in Hnd as [Hn1 Hn2].
+  destruct Hx as [->|Hx], Hy as [->|Hy]; auto.
+  - exfalso. apply Hn1. rewrite He. apply elem_of_list_In, in_map. exact Hy.
+  - exfalso. apply Hn1. rewrite <- He. apply elem_of_list_In, in_map. exact Hx.
 Qed.
 
-Lemma sid_distinct_nonzero e ops s outs x y :
-  run Repaired e st0 ops = Some (s, outs) -> live s x -> live s y ->
+(* indexed sessions and sessions whose PADR is still between allocation and indexing all have
+   pairwise distinct ids in 1..65535 *)
+Lemma sid_distinct_nonzero_inv s x y : Inv s -> alive s x -> alive s y ->
   0 < s_sid x < 65536 /\ (s_sid x = s_sid y -> x = y).
-Proof. intros Hr. apply sid_distinct_nonzero_inv. eapply run_Inv; [apply Inv_st0 | exact Hr]. Qed.
+Proof.
+  intros HI [Hx|Hx] [Hy|Hy].
+  - apply live_in_sid in Hx; auto. apply live_in_sid in Hy; auto.
+    split; [apply (inv_sid _ HI _ _ Hx)|]. intros He. rewrite He in Hx. congruence.
+  - apply live_in_sid in Hx; auto. destruct (inv_pend _ HI y Hy) as (_ & F2 & _).
+    split; [apply (inv_sid _ HI _ _ Hx)|]. intros He. rewrite He in Hx. congruence.
+  - apply live_in_sid in Hy; auto. destruct (inv_pend _ HI x Hx) as (F1 & F2 & _).
+    split; [exact F1|]. intros He. rewrite He in F2. congruence.
+  - destruct (inv_pend _ HI x Hx) as (F1 & _). split; [exact F1|].
+    intros He. eapply NoDup_map_inj; eauto. apply (inv_pend_sid _ HI).
+Qed.
+
+Lemma sid_distinct_nonzero v e ops s outs x y : reserving v ->
+  run v e st0 ops = Some (s, outs) -> alive s x -> alive s y ->
+  0 < s_sid x < 65536 /\ (s_sid x = s_sid y -> x = y).
+Proof. intros Hv Hr. apply sid_distinct_nonzero_inv. eapply run_Inv; [exact Hv | apply Inv_st0 | exact Hr]. Qed.
 
 (* ------------------------------------------------------------------ isolation *)
 Definition sender (o : op) : option tuple :=
-  match o with PADI t | PADR t _ | PADT t _ | SESS t _ => Some t | _ => None end.
+  match o with
+  | PADI t | PADR t _ | PBEGIN t _ | PADT t _ | SESS t _ | SETATTR t _ _ => Some t
+  | _ => None
+  end.
 
-Lemma owner_ok_repaired x t : owner_ok Repaired x t = true -> s_tup x = t.
-Proof. unfold owner_ok; simpl. apply tuple_eqb_eq. Qed.
+Lemma owner_ok_true v x t : v_owner_check v = true -> owner_ok v x t = true -> s_tup x = t.
+Proof. unfold owner_ok. intros ->. apply tuple_eqb_eq. Qed.
 
-Lemma isolation e s o s' r t : Inv s -> sender o = Some t -> step Repaired e s o = Some (s', r) ->
+(* variants with the owner check, the id-0 guard and id reservation (guarded removal or not) *)
+Definition owning (v : variant) : Prop := v_owner_check v = true /\ reserving v.
+
+Lemma reach_none (r : out) : (forall u, r <> OTerm u /\ r <> OReach u) ->
+  forall (P : N -> Prop) u, r = OTerm u \/ r = OReach u -> P u.
+Proof. intros Hr P u [Hu|Hu]; destruct (Hr u); congruence. Qed.
+
+(* the two primary indexes: a packet from tuple t leaves every session of another tuple where it is,
+   creates sessions for t only, and what it terminates or reaches belongs to t *)
+Lemma isolation_core v e s o s' r t : owning v -> Inv s -> sender o = Some t -> step v e s o = Some (s', r) ->
   (forall k x, by_sid s !! k = Some x -> s_tup x <> t -> by_sid s' !! k = Some x) /\
   (forall t', t' <> t -> by_tup s' !! t' = by_tup s !! t') /\
   (forall k x, by_sid s' !! k = Some x -> by_sid s !! k = Some x \/ s_tup x = t) /\
+  (forall x, In x (pend s') -> In x (pend s) \/ s_tup x = t) /\
   (forall u, r = OTerm u \/ r = OReach u -> exists x, live s x /\ s_uid x = u /\ s_tup x = t).
 Proof.
-  intros HI Hsnd Hs.
-  assert (Hsame : s' = s -> (forall u, r <> OTerm u /\ r <> OReach u) ->
+  intros [Ho Hv] HI Hsnd Hs.
+  assert (Hsame : forall s1, by_sid s1 = by_sid s -> by_tup s1 = by_tup s -> pend s1 = pend s ->
+     (forall u, r <> OTerm u /\ r <> OReach u) -> s' = s1 ->
      (forall k x, by_sid s !! k = Some x -> s_tup x <> t -> by_sid s' !! k = Some x) /\
      (forall t', t' <> t -> by_tup s' !! t' = by_tup s !! t') /\
      (forall k x, by_sid s' !! k = Some x -> by_sid s !! k = Some x \/ s_tup x = t) /\
+     (forall x, In x (pend s') -> In x (pend s) \/ s_tup x = t) /\
      (forall u, r = OTerm u \/ r = OReach u -> exists x, live s x /\ s_uid x = u /\ s_tup x = t)).
-  { intros -> Hr. repeat split; auto. intros u [Hu|Hu]; exfalso; destruct (Hr u) as [A B]; congruence. }
-  destruct o as [t0|t0 p|t0 sid|t0 sid|sid|sid t0|n]; simpl in Hsnd; inversion Hsnd; subst t0; simpl in Hs.
-  - destruct (e_grp e t); inversion Hs; subst; apply Hsame; auto; intros u; split; discriminate.
-  - destruct (parse_tags p) as [tg|?| |]; try discriminate;
-      [|inversion Hs; subst; apply Hsame; auto; intros u; split; discriminate].
-    destruct (validate _ _ _ _ _); simpl in Hs; [|inversion Hs; subst; apply Hsame; auto; intros u; split; discriminate].
-    destruct (e_grp e t); simpl in Hs; [|inversion Hs; subst; apply Hsame; auto; intros u; split; discriminate].
-    destruct (allocate Repaired (by_sid s) (next s)) as [[sid n']|?| |] eqn:Ea; try discriminate.
-    apply allocate_sound in Ea; [|apply norm_next_range, HI]. destruct Ea as [Hn' Hsid].
-    destruct (N.eqb_spec sid 0) as [->|Hne]; simpl in Hs; inversion Hs; subst; simpl.
-    + repeat split; auto. intros u [?|?]; discriminate.
-    + destruct Hsid as [?|[Hfree Hr]]; [contradiction|]. repeat split.
-      * intros k x Hk _. rewrite lookup_insert_ne; [exact Hk|]. intros <-. congruence.
-      * intros t' Hne'. rewrite lookup_insert_ne; auto.
-      * intros k x Hk. destruct (N.eq_dec sid k) as [<-|Hnk].
-        -- rewrite lookup_insert in Hk. inversion Hk; subst. right; reflexivity.
+  { intros s1 E1 E2 E3 Hr ->. rewrite E1, E2, E3. repeat split; auto.
+    intros u Hu. exfalso. destruct Hu as [Hu|Hu]; destruct (Hr u); congruence. }
+  destruct o as [t0|t0 p|t0 p|u|t0 sid|t0 sid|t0 sid a|sid|sid t0 a|n]; simpl in Hsnd; inversion Hsnd; subst t0;
+    simpl in Hs.
+  - destruct (e_grp e t); inversion Hs; subst; eapply Hsame; eauto; intros u; split; discriminate.
+  - destruct (padr_begin v e s t p) as [[s1 [x|]]|] eqn:Eb; inversion Hs; subst.
+    + destruct (padr_begin_Inv _ _ _ _ _ _ _ Hv HI Eb) as (HI1 & Hp & X1 & X2 & X3 & X4 & X5 & X6).
+      destruct (padr_begin_frame _ _ _ _ _ _ _ Eb) as (E1 & E2 & E3 & E4 & E5 & E6 & E7 & _).
+      simpl. rewrite E1, E2, E6 in *. repeat split.
+      * intros k y Hk _. rewrite lookup_insert_ne; [exact Hk|]. intros <-. congruence.
+      * intros t' Hne'. rewrite lookup_insert_ne; congruence.
+      * intros k y Hk. destruct (N.eq_dec (s_sid x) k) as [<-|Hnk].
+        -- rewrite lookup_insert in Hk. inversion Hk; subst. right; exact E7.
         -- rewrite lookup_insert_ne in Hk by exact Hnk. left; exact Hk.
+      * auto.
       * intros u [?|?]; discriminate.
+    + destruct (padr_begin_frame _ _ _ _ _ _ _ Eb) as (E1 & E2 & E3 & E4 & E5 & E6 & _).
+      apply (Hsame _ E1 E2 E6); [intros u; split; discriminate | reflexivity].
+  - destruct (padr_begin v e s t p) as [[s1 [x|]]|] eqn:Eb; inversion Hs; subst.
+    + destruct (padr_begin_frame _ _ _ _ _ _ _ Eb) as (E1 & E2 & E3 & E4 & E5 & E6 & E7 & _).
+      simpl. rewrite E1, E2, E6. repeat split; auto.
+      * intros y Hy. apply in_app_or in Hy as [Hy|[<-|[]]]; auto.
+      * intros u [?|?]; discriminate.
+    + destruct (padr_begin_frame _ _ _ _ _ _ _ Eb) as (E1 & E2 & E3 & E4 & E5 & E6 & _).
+      apply (Hsame _ E1 E2 E6); [intros u; split; discriminate | reflexivity].
   - destruct (by_sid s !! sid) as [x|] eqn:El;
-      [|inversion Hs; subst; apply Hsame; auto; intros u; split; discriminate].
-    destruct (owner_ok Repaired x t) eqn:Eo; inversion Hs; subst;
-      [|apply Hsame; auto; intros u; split; discriminate].
-    apply owner_ok_repaired in Eo. destruct (inv_sid _ HI _ _ El) as [Hsx _]. simpl. repeat split.
-    + intros k y Hk Hy. rewrite lookup_delete_ne; [exact Hk|]. intros <-. rewrite Hsx, El in Hk. congruence.
-    + intros t' Hne'. rewrite lookup_delete_ne; congruence.
-    + intros k y Hk. apply lookup_delete_Some in Hk as [_ Hk]. left; exact Hk.
+      [|inversion Hs; subst; eapply Hsame; eauto; intros u; split; discriminate].
+    destruct (owner_ok v x t) eqn:Eo; inversion Hs; subst;
+      [|eapply Hsame; eauto; intros u; split; discriminate].
+    apply owner_ok_true in Eo; [|exact Ho]. destruct (inv_sid _ HI _ _ El) as [Hsx _]. simpl. repeat split.
+    + intros k y Hk Hy. rewrite del_ifN_ne; [exact Hk|]. intros <-. rewrite Hsx, El in Hk. congruence.
+    + intros t' Hne'. rewrite del_if_ne; congruence.
+    + intros k y Hk. apply del_ifN_sub in Hk. left; exact Hk.
+    + auto.
     + intros u [Hu|Hu]; inversion Hu; subst. exists x. split; [left; eauto | auto].
   - destruct (by_sid s !! sid) as [x|] eqn:El;
-      [|inversion Hs; subst; apply Hsame; auto; intros u; split; discriminate].
-    destruct (owner_ok Repaired x t) eqn:Eo; inversion Hs; subst;
-      [|apply Hsame; auto; intros u; split; discriminate].
-    apply owner_ok_repaired in Eo. repeat split; auto.
+      [|inversion Hs; subst; eapply Hsame; eauto; intros u; split; discriminate].
+    destruct (owner_ok v x t) eqn:Eo; inversion Hs; subst;
+      [|eapply Hsame; eauto; intros u; split; discriminate].
+    apply owner_ok_true in Eo; [|exact Ho]. repeat split; auto.
     intros u [Hu|Hu]; inversion Hu; subst. exists x. split; [left; eauto | auto].
+  - destruct (by_sid s !! sid) as [x|] eqn:El;
+      [|inversion Hs; subst; eapply Hsame; eauto; intros u; split; discriminate].
+    destruct (owner_ok v x t) eqn:Eo; inversion Hs; subst;
+      [|eapply Hsame; eauto; intros u; split; discriminate].
+    apply owner_ok_true in Eo; [|exact Ho]. simpl. repeat split; auto.
+    intros u [Hu|Hu]; inversion Hu; subst. exists x. split; [left; eauto | auto].
+Qed.
+
+(* the secondary indexes (sessionIDIndex/acctSessionIndex and usernameIndex/ipv4Index/ipv6Index): with
+   guarded removal a packet from tuple t leaves every entry that points to a session of another tuple alone,
+   even when the sender has given its own session the same Username *)
+Lemma isolation_idx v e s o s' r t : owning v -> v_guard_remove v = true -> Inv s -> sender o = Some t ->
+  step v e s o = Some (s', r) ->
+  (forall k x, by_uidx s !! k = Some x -> s_tup x <> t -> by_uidx s' !! k = Some x) /\
+  (forall a x, by_attr s !! a = Some x -> s_tup x <> t -> by_attr s' !! a = Some x) /\
+  (attr_of s' = attr_of s \/
+   exists sid x a, by_sid s !! sid = Some x /\ s_tup x = t /\ attr_of s' = <[ s_uid x := a ]> (attr_of s)).
+Proof.
+  intros [Ho Hv] Hg HI Hsnd Hs.
+  assert (Hsame : forall s1, by_uidx s1 = by_uidx s -> by_attr s1 = by_attr s -> attr_of s1 = attr_of s -> s' = s1 ->
+     (forall k x, by_uidx s !! k = Some x -> s_tup x <> t -> by_uidx s' !! k = Some x) /\
+     (forall a x, by_attr s !! a = Some x -> s_tup x <> t -> by_attr s' !! a = Some x) /\
+     (attr_of s' = attr_of s \/
+      exists sid x a, by_sid s !! sid = Some x /\ s_tup x = t /\ attr_of s' = <[ s_uid x := a ]> (attr_of s))).
+  { intros s1 E1 E2 E3 ->. rewrite E1, E2, E3. auto. }
+  destruct o as [t0|t0 p|t0 p|u|t0 sid|t0 sid|t0 sid a|sid|sid t0 a|n]; simpl in Hsnd; inversion Hsnd; subst t0;
+    simpl in Hs.
+  - destruct (e_grp e t); inversion Hs; subst; eapply Hsame; eauto.
+  - destruct (padr_begin v e s t p) as [[s1 [x|]]|] eqn:Eb; inversion Hs; subst.
+    + destruct (padr_begin_frame _ _ _ _ _ _ _ Eb) as (E1 & E2 & E3 & E4 & E5 & E6 & E7 & E8 & _).
+      simpl. rewrite E3, E4, E5. repeat split; auto.
+      intros k y Hk _. rewrite lookup_insert_ne; [exact Hk|]. intros <-. destruct (inv_uidx _ HI _ _ Hk). lia.
+    + destruct (padr_begin_frame _ _ _ _ _ _ _ Eb) as (E1 & E2 & E3 & E4 & E5 & E6 & _).
+      apply (Hsame _ E3 E4 E5). reflexivity.
+  - destruct (padr_begin v e s t p) as [[s1 ox]|] eqn:Eb; [|discriminate].
+    destruct (padr_begin_frame _ _ _ _ _ _ _ Eb) as (E1 & E2 & E3 & E4 & E5 & E6 & _).
+    destruct ox; inversion Hs; subst; (eapply Hsame; [| | |reflexivity]; simpl; auto).
+  - destruct (by_sid s !! sid) as [x|] eqn:El; [|inversion Hs; subst; eapply Hsame; eauto].
+    destruct (owner_ok v x t) eqn:Eo; inversion Hs; subst; [|eapply Hsame; eauto].
+    apply owner_ok_true in Eo; [|exact Ho]. simpl. rewrite Hg. repeat split; auto.
+    + intros k y Hk Hy. apply del_ifN_keep; [exact Hk | congruence].
+    + intros a y Hk Hy. destruct (get_attr s (s_uid x)); [|exact Hk]. apply del_if_keep; [exact Hk | congruence].
+  - destruct (by_sid s !! sid) as [x|] eqn:El; [|inversion Hs; subst; eapply Hsame; eauto].
+    destruct (owner_ok v x t) eqn:Eo; inversion Hs; subst; eapply Hsame; eauto.
+  - destruct (by_sid s !! sid) as [x|] eqn:El; [|inversion Hs; subst; eapply Hsame; eauto].
+    destruct (owner_ok v x t) eqn:Eo; inversion Hs; subst; [|eapply Hsame; eauto].
+    apply owner_ok_true in Eo; [|exact Ho]. simpl. repeat split; auto. right. exists sid, x, a. auto.
+Qed.
+
+(* the second half of a PADR (addToIndexes) touches nothing but the new session's own, so far empty, slots *)
+Lemma commit_isolation v e s u s' r : Inv s -> step v e s (PCOMMIT u) = Some (s', r) ->
+  exists x, In x (pend s) /\ s_uid x = u /\ r = OPads (s_sid x) u /\
+    by_sid s !! s_sid x = None /\ by_uidx s !! u = None /\
+    (forall k, k <> s_sid x -> by_sid s' !! k = by_sid s !! k) /\
+    (forall t, t <> s_tup x -> by_tup s' !! t = by_tup s !! t) /\
+    (forall k, k <> u -> by_uidx s' !! k = by_uidx s !! k) /\
+    by_attr s' = by_attr s /\ attr_of s' = attr_of s /\
+    (forall y, In y (pend s') -> In y (pend s)).
+Proof.
+  intros HI Hs. simpl in Hs. destruct (take_pend u (pend s)) as [[x rest]|] eqn:Et; [|discriminate].
+  inversion Hs; subst. apply take_pend_perm in Et as [Hperm Hu].
+  assert (Hxin : In x (pend s)) by (apply elem_of_list_In; rewrite Hperm; left).
+  destruct (inv_pend _ HI x Hxin) as (F1 & F2 & F3 & F4).
+  exists x. simpl. rewrite Hu in *. repeat split; auto.
+  - intros k Hk. apply lookup_insert_ne. congruence.
+  - intros t Ht. apply lookup_insert_ne. congruence.
+  - intros k Hk. apply lookup_insert_ne. congruence.
+  - intros y Hy. apply elem_of_list_In. rewrite Hperm. right. apply elem_of_list_In. exact Hy.
+Qed.
+
+(* over histories: while only other hosts send packets (and their half-done PADRs complete), a session
+   stays exactly where it is in every index *)
+Definition foreign (t0 : tuple) (o : op) : Prop :=
+  (exists t, sender o = Some t /\ t <> t0) \/ (exists u, o = PCOMMIT u).
+
+Lemma isolation_run v e t0 : owning v -> v_guard_remove v = true -> forall ops s s' outs k x,
+  Inv s -> by_sid s !! k = Some x -> s_tup x = t0 -> (forall y, In y (pend s) -> s_tup y <> t0) ->
+  Forall (foreign t0) ops ->
+  run v e s ops = Some (s', outs) ->
+  by_sid s' !! k = Some x /\ by_tup s' !! t0 = by_tup s !! t0 /\
+  (by_uidx s !! s_uid x = Some x -> by_uidx s' !! s_uid x = Some x) /\
+  (forall a, by_attr s !! a = Some x -> by_attr s' !! a = Some x).
+Proof.
+  intros Hv Hg. induction ops as [|o r IH]; simpl; intros s s' outs k x HI Hk Ht Hpe Hall Hr.
+  - inversion Hr; subst. auto.
+  - destruct (step v e s o) as [[s1 y]|] eqn:Es; [|discriminate].
+    destruct (run v e s1 r) as [[s2 ys]|] eqn:Er; [|discriminate]. inversion Hr; subst s2 outs.
+    apply Forall_cons in Hall as [Hf Hall'].
+    assert (HI1 : Inv s1) by (eapply step_Inv; [apply Hv | exact HI | exact Es]).
+    assert (Hstep : by_sid s1 !! k = Some x /\ by_tup s1 !! t0 = by_tup s !! t0 /\
+              (by_uidx s !! s_uid x = Some x -> by_uidx s1 !! s_uid x = Some x) /\
+              (forall a, by_attr s !! a = Some x -> by_attr s1 !! a = Some x) /\
+              (forall z, In z (pend s1) -> s_tup z <> t0)).
+    { destruct Hf as [(t & Hsnd & Hne)|(u & ->)].
+      - destruct (isolation_core _ _ _ _ _ _ _ Hv HI Hsnd Es) as (I1 & I2 & _ & I4 & _).
+        destruct (isolation_idx _ _ _ _ _ _ _ Hv Hg HI Hsnd Es) as (J1 & J2 & _).
+        split; [apply I1; [exact Hk | congruence]|]. split; [apply I2; congruence|].
+        split; [intros Hu; apply J1; [exact Hu | congruence]|].
+        split; [intros a Ha; apply J2; [exact Ha | congruence]|].
+        intros z Hz. destruct (I4 z Hz) as [Hz'|Hz']; [auto | congruence].
+      - destruct (commit_isolation _ _ _ _ _ _ HI Es) as (z & Hz & Hzu & _ & C1 & C2 & C3 & C4 & C5 & C6 & _ & C8).
+        split; [rewrite C3; [exact Hk | intros ->; congruence]|].
+        split; [apply C4; intros He; apply (Hpe z Hz); congruence|].
+        split; [intros Hu; rewrite C5; [exact Hu | intros He; rewrite <- He in C2; congruence]|].
+        split; [intros a Ha; rewrite C6; exact Ha|]. intros w Hw. apply Hpe, C8, Hw. }
+    destruct Hstep as (S1 & S2 & S3 & S4 & S5).
+    destruct (IH s1 s' ys k x HI1 S1 Ht S5 Hall' Er) as (R1 & R2 & R3 & R4).
+    split; [exact R1|]. split; [congruence|]. split; [auto|]. auto.
 Qed.
 
 (* ------------------------------------------------------------------ admission *)
@@ -422,97 +782,261 @@ Lemma padr_needs_cookie v e s t p s' sid uid : step v e s (PADR t p) = Some (s',
   exists tg, parse_tags p = Ok tg /\
     validate (e_H e) (e_ttl e) (e_now_ns e) (t_cookie tg) t = true /\ e_grp e t = true.
 Proof.
-  simpl. destruct (parse_tags p) as [tg|?| |]; try discriminate.
-  destruct (validate _ _ _ _ _) eqn:Ev; simpl; [|discriminate].
-  destruct (e_grp e t) eqn:Eg; simpl; [|discriminate]. intros _. exists tg. auto.
+  simpl. destruct (padr_begin v e s t p) as [[s1 [x|]]|] eqn:Eb; try discriminate. intros _.
+  apply padr_begin_cases in Eb as [Hx|(tg & sid' & n' & Hp & Hv & Hg & _)]; [inversion Hx|]. eauto.
+Qed.
+
+(* the same for the first half of an interleaved PADR *)
+Lemma pbegin_needs_cookie v e s t p s' sid uid : step v e s (PBEGIN t p) = Some (s', OPend sid uid) ->
+  exists tg, parse_tags p = Ok tg /\
+    validate (e_H e) (e_ttl e) (e_now_ns e) (t_cookie tg) t = true /\ e_grp e t = true.
+Proof.
+  simpl. destruct (padr_begin v e s t p) as [[s1 [x|]]|] eqn:Eb; try discriminate. intros _.
+  apply padr_begin_cases in Eb as [Hx|(tg & sid' & n' & Hp & Hv & Hg & _)]; [inversion Hx|]. eauto.
 Qed.
 
 Lemma padr_rejected_no_state v e s t p s' r : step v e s (PADR t p) = Some (s', r) ->
   (forall tg, parse_tags p = Ok tg -> validate (e_H e) (e_ttl e) (e_now_ns e) (t_cookie tg) t = false) ->
   s' = s /\ r = ONone.
 Proof.
-  simpl. destruct (parse_tags p) as [tg|?| |]; try discriminate.
-  - intros Hs Hv. rewrite (Hv tg eq_refl) in Hs. simpl in Hs. inversion Hs; auto.
-  - intros Hs _. inversion Hs; auto.
+  simpl. destruct (padr_begin v e s t p) as [[s1 ox]|] eqn:Eb; [|discriminate]. intros Hs Hv.
+  pose proof (padr_begin_novalid _ _ _ _ _ _ Eb Hv) as Hx. inversion Hx; subst. inversion Hs; auto.
 Qed.
 
-(* every session object that becomes live was created by a PADR answered with PADS, or restored *)
-Lemma step_new_live v e s o s' r x : step v e s o = Some (s', r) -> live s' x ->
-  live s x \/ (exists p, o = PADR (s_tup x) p /\ r = OPads (s_sid x) (s_uid x)) \/ o = RESTORE (s_sid x) (s_tup x).
+Lemma pbegin_rejected_no_state v e s t p s' r : step v e s (PBEGIN t p) = Some (s', r) ->
+  (forall tg, parse_tags p = Ok tg -> validate (e_H e) (e_ttl e) (e_now_ns e) (t_cookie tg) t = false) ->
+  s' = s /\ r = ONone.
 Proof.
-  assert (Hadd : forall y s0, live (bump_ctr (add_indexes y s0)) x -> live s0 x \/ x = y).
-  { intros y s0 [[k Hk]|[t Ht]]; simpl in *.
+  simpl. destruct (padr_begin v e s t p) as [[s1 ox]|] eqn:Eb; [|discriminate]. intros Hs Hv.
+  pose proof (padr_begin_novalid _ _ _ _ _ _ Eb Hv) as Hx. inversion Hx; subst. inversion Hs; auto.
+Qed.
+
+(* every session object that becomes alive (indexed, or built and waiting to be indexed) was created by a PADR
+   whose cookie validated (PADR / PBEGIN), or restored *)
+Lemma step_new_alive v e s o s' r x : step v e s o = Some (s', r) -> alive s' x ->
+  alive s x \/ (exists p, (o = PADR (s_tup x) p /\ r = OPads (s_sid x) (s_uid x)) \/
+                          (o = PBEGIN (s_tup x) p /\ r = OPend (s_sid x) (s_uid x))) \/
+  (exists a, o = RESTORE (s_sid x) (s_tup x) a).
+Proof.
+  assert (Hadd : forall a y s0, live (add_indexes a y s0) x -> live s0 x \/ x = y).
+  { intros a y s0 [[k Hk]|[t Ht]]; simpl in *.
     - destruct (N.eq_dec (s_sid y) k) as [<-|Hne].
       + rewrite lookup_insert in Hk. inversion Hk; auto.
       + rewrite lookup_insert_ne in Hk by exact Hne. left; left; eauto.
     - destruct (decide (s_tup y = t)) as [<-|Hne].
       + rewrite lookup_insert in Ht. inversion Ht; auto.
       + rewrite lookup_insert_ne in Ht by exact Hne. left; right; eauto. }
-  assert (Hrem : forall y s0, live (remove_indexes y s0) x -> live s0 x).
+  assert (Hrem : forall y s0, live (remove_indexes v y s0) x -> live s0 x).
   { intros y s0 [[k Hk]|[t Ht]]; simpl in *.
-    - apply lookup_delete_Some in Hk as [_ Hk]. left; eauto.
-    - apply lookup_delete_Some in Ht as [_ Ht]. right; eauto. }
-  intros Hs Hl. destruct o as [t|t p|t sid|t sid|sid|sid t|n]; simpl in Hs.
+    - apply del_ifN_sub in Hk. left; eauto.
+    - apply del_if_sub in Ht. right; eauto. }
+  intros Hs Hl. destruct o as [t|t p|t p|u|t sid|t sid|t sid a|sid|sid t a|n]; simpl in Hs.
   - destruct (e_grp e t); inversion Hs; subst; auto.
-  - destruct (parse_tags p) as [tg|?| |]; try discriminate; [|inversion Hs; subst; auto].
-    destruct (validate _ _ _ _ _); simpl in Hs; [|inversion Hs; subst; auto].
-    destruct (e_grp e t); simpl in Hs; [|inversion Hs; subst; auto].
-    destruct (allocate v (by_sid s) (next s)) as [[sid n']|?| |]; try discriminate.
-    destruct (v_sid_guard v && N.eqb sid 0); inversion Hs; subst; [left; exact Hl|].
-    apply Hadd in Hl as [Hl| ->]; [left; exact Hl|]. right; left. exists p. auto.
+  - destruct (padr_begin v e s t p) as [[s1 ox]|] eqn:Eb; [|discriminate].
+    destruct (padr_begin_frame _ _ _ _ _ _ _ Eb) as (E1 & E2 & E3 & E4 & E5 & E6 & E7).
+    assert (Hl1 : forall z, live s1 z -> live s z) by (intros z; unfold live; rewrite E1, E2; auto).
+    destruct ox as [y|]; inversion Hs; subst.
+    + destruct Hl as [Hl|Hl].
+      * apply Hadd in Hl as [Hl| ->]; [left; left; auto|]. destruct E7 as (<- & _). right; left. exists p. auto.
+      * simpl in Hl. rewrite E6 in Hl. left; right; exact Hl.
+    + destruct Hl as [Hl|Hl]; [left; left; auto | rewrite E6 in Hl; left; right; exact Hl].
+  - destruct (padr_begin v e s t p) as [[s1 ox]|] eqn:Eb; [|discriminate].
+    destruct (padr_begin_frame _ _ _ _ _ _ _ Eb) as (E1 & E2 & E3 & E4 & E5 & E6 & E7).
+    assert (Hl1 : forall z, live s1 z -> live s z) by (intros z; unfold live; rewrite E1, E2; auto).
+    destruct ox as [y|]; inversion Hs; subst.
+    + destruct Hl as [Hl|Hl].
+      * left; left. apply Hl1. exact Hl.
+      * simpl in Hl. rewrite E6 in Hl. apply in_app_or in Hl as [Hl|[<-|[]]]; [left; right; exact Hl|].
+        destruct E7 as (<- & _). right; left. exists p. auto.
+    + destruct Hl as [Hl|Hl]; [left; left; auto | rewrite E6 in Hl; left; right; exact Hl].
+  - destruct (take_pend u (pend s)) as [[y rest]|] eqn:Et; [|discriminate]. inversion Hs; subst.
+    apply take_pend_perm in Et as [Hperm _]. left. destruct Hl as [Hl|Hl].
+    + apply Hadd in Hl as [Hl| ->]; [left; exact Hl|]. right. apply elem_of_list_In. rewrite Hperm. left.
+    + simpl in Hl. right. apply elem_of_list_In. rewrite Hperm. right. apply elem_of_list_In. exact Hl.
   - destruct (by_sid s !! sid) as [y|]; [|inversion Hs; subst; auto].
-    destruct (owner_ok v y t); inversion Hs; subst; auto. left; eapply Hrem; eauto.
+    destruct (owner_ok v y t); inversion Hs; subst; auto. left.
+    destruct Hl as [Hl|Hl]; [left; eapply Hrem; eauto | right; exact Hl].
   - destruct (by_sid s !! sid) as [y|]; [|inversion Hs; subst; auto].
     destruct (owner_ok v y t); inversion Hs; subst; auto.
-  - destruct (by_sid s !! sid) as [y|]; inversion Hs; subst; auto. left; eapply Hrem; eauto.
+  - destruct (by_sid s !! sid) as [y|]; [|inversion Hs; subst; auto].
+    destruct (owner_ok v y t); inversion Hs; subst; auto.
+  - destruct (by_sid s !! sid) as [y|]; inversion Hs; subst; auto. left.
+    destruct Hl as [Hl|Hl]; [left; eapply Hrem; eauto | right; exact Hl].
   - destruct (_ || _); [discriminate|]. inversion Hs; subst.
-    destruct Hl as [[k Hk]|[t' Ht]]; simpl in *.
-    + assert (live (bump_ctr (add_indexes {| s_uid := ctr s; s_sid := sid; s_tup := t |} s)) x) as Hl by (left; eauto).
-      apply Hadd in Hl as [Hl| ->]; auto.
-    + assert (live (bump_ctr (add_indexes {| s_uid := ctr s; s_sid := sid; s_tup := t |} s)) x) as Hl by (right; eauto).
-      apply Hadd in Hl as [Hl| ->]; auto.
+    destruct Hl as [Hl|Hl]; [|left; right; exact Hl].
+    assert (Hl' : live (add_indexes (get_attr (set_attr_of s (ctr s) a) (ctr s))
+                    {| s_uid := ctr s; s_sid := sid; s_tup := t |} (set_attr_of s (ctr s) a)) x)
+      by (destruct Hl as [[k Hk]|[t' Ht]]; [left | right]; eauto).
+    apply Hadd in Hl' as [Hl'| ->]; [left; left; exact Hl' | right; right; eauto].
   - destruct (N.ltb n 65536); inversion Hs; subst. left. exact Hl.
 Qed.
 
 (* ------------------------------------------------------------------ allocation inside PADR *)
-Lemma padr_creates_when_room e s t p tg : Inv s -> parse_tags p = Ok tg ->
+Lemma padr_creates_when_room v e s t p tg : reserving v -> Inv s -> parse_tags p = Ok tg ->
   validate (e_H e) (e_ttl e) (e_now_ns e) (t_cookie tg) t = true -> e_grp e t = true ->
-  (exists j, 0 < j < 65536 /\ by_sid s !! j = None) ->
-  exists s' sid, step Repaired e s (PADR t p) = Some (s', OPads sid (ctr s)) /\ 0 < sid < 65536 /\
-    by_sid s !! sid = None /\ by_sid s' !! sid = Some {| s_uid := ctr s; s_sid := sid; s_tup := t |}.
+  (exists j, 0 < j < 65536 /\ id_used v s j = false) ->
+  exists s' sid, step v e s (PADR t p) = Some (s', OPads sid (ctr s)) /\ 0 < sid < 65536 /\
+    id_used v s sid = false /\ by_sid s' !! sid = Some {| s_uid := ctr s; s_sid := sid; s_tup := t |}.
 Proof.
-  intros HI Hp Hv Hg (j & Hj & Hfree). simpl. rewrite Hp, Hv, Hg. simpl.
-  destruct (allocate_complete Repaired (by_sid s) (next s)) as (sid & n' & Ha & Hc); [apply norm_next_range, HI|].
-  rewrite Ha. pose proof Ha as Hsound. apply allocate_sound in Hsound; [|apply norm_next_range, HI].
-  destruct Hc as [[Hne Hf]|[-> Hall]]; [|exfalso; eapply Hall; eauto].
-  destruct (N.eqb_spec sid 0); [contradiction|]. simpl.
-  destruct Hsound as [_ [?|[_ Hr]]]; [contradiction|].
-  eexists _, sid. split; [reflexivity|]. split; [exact Hr|]. split; [exact Hf|]. simpl. apply lookup_insert.
+  intros [Hg Hr] HI Hp Hv Hgr (j & Hj & Hfree). simpl. unfold padr_begin. rewrite Hp, Hv, Hgr. simpl.
+  destruct (allocate_complete v s) as (sid & n' & Ha & Hc); [apply norm_next_range; [exact Hg | apply HI]|].
+  rewrite Ha. pose proof Ha as Hsound. apply allocate_sound in Hsound; [|apply norm_next_range; [exact Hg | apply HI]].
+  destruct Hc as [[Hne Hf]|[-> Hall]]; [|rewrite (Hall j Hj) in Hfree; discriminate].
+  rewrite Hg. simpl. destruct (N.eqb_spec sid 0); [contradiction|].
+  destruct Hsound as [_ [?|[_ Hrg]]]; [contradiction|].
+  eexists _, sid. split; [reflexivity|]. split; [exact Hrg|]. split; [exact Hf|]. simpl. apply lookup_insert.
 Qed.
 
-Lemma padr_full_repaired e s t p s' r : Inv s -> (forall j, 0 < j < 65536 -> by_sid s !! j <> None) ->
-  step Repaired e s (PADR t p) = Some (s', r) -> r = ONone /\ by_sid s' = by_sid s /\ by_tup s' = by_tup s.
+Lemma padr_full_repaired v e s t p s' r : reserving v -> Inv s -> (forall j, 0 < j < 65536 -> id_used v s j = true) ->
+  step v e s (PADR t p) = Some (s', r) ->
+  r = ONone /\ by_sid s' = by_sid s /\ by_tup s' = by_tup s /\ pend s' = pend s.
 Proof.
-  intros HI Hall. simpl. destruct (parse_tags p) as [tg|?| |]; try discriminate; [|intros Hs; inversion Hs; auto].
-  destruct (validate _ _ _ _ _); simpl; [|intros Hs; inversion Hs; auto].
-  destruct (e_grp e t); simpl; [|intros Hs; inversion Hs; auto].
-  destruct (allocate Repaired (by_sid s) (next s)) as [[sid n']|?| |] eqn:Ea; try discriminate.
-  apply allocate_sound in Ea; [|apply norm_next_range, HI]. destruct Ea as [_ [->|[Hf Hr]]].
-  - simpl. intros Hs; inversion Hs; auto.
-  - exfalso. eapply Hall; eauto.
+  intros [Hg Hr] HI Hall. simpl. destruct (padr_begin v e s t p) as [[s1 ox]|] eqn:Eb; [|discriminate].
+  destruct (padr_begin_frame _ _ _ _ _ _ _ Eb) as (E1 & E2 & _ & _ & _ & E6 & _).
+  apply padr_begin_cases in Eb as [Hx|(tg & sid & n' & _ & _ & _ & Ha & Hc)].
+  - inversion Hx; subst. intros Hs; inversion Hs; auto.
+  - apply allocate_sound in Ha; [|apply norm_next_range; [exact Hg | apply HI]]. destruct Ha as [_ [->|[Hf Hrg]]].
+    + destruct Hc as [[_ Hx]|[Hz _]]; [|rewrite Hg in Hz; discriminate]. inversion Hx; subst.
+      intros Hs; inversion Hs; auto.
+    + rewrite (Hall sid Hrg) in Hf. discriminate.
 Qed.
 
-(* the code as found: with all 65535 ids in use a valid PADR is answered with session-id 0 *)
-Lemma padr_full_defective e s t p tg : 0 < next s < 65536 -> (forall j, 0 < j < 65536 -> by_sid s !! j <> None) ->
+(* the code as first found (no id-0 guard): with all 65535 ids in use a valid PADR is answered with session-id 0 *)
+Lemma padr_full_defective v e s t p tg : v_sid_guard v = false -> 0 < next s < 65536 ->
+  (forall j, 0 < j < 65536 -> id_used v s j = true) ->
   parse_tags p = Ok tg -> validate (e_H e) (e_ttl e) (e_now_ns e) (t_cookie tg) t = true -> e_grp e t = true ->
-  exists s', step Defective e s (PADR t p) = Some (s', OPads 0 (ctr s)) /\
+  exists s', step v e s (PADR t p) = Some (s', OPads 0 (ctr s)) /\
     by_sid s' !! 0 = Some {| s_uid := ctr s; s_sid := 0; s_tup := t |}.
 Proof.
-  intros Hn Hall Hp Hv Hg. simpl. rewrite Hp, Hv, Hg. simpl.
-  destruct (allocate_complete Defective (by_sid s) (next s)) as (sid & n' & Ha & Hc); [exact Hn|].
-  rewrite Ha. destruct Hc as [[Hne Hf]|[-> _]].
-  - apply allocate_sound in Ha; [|exact Hn]. destruct Ha as [_ [?|[_ Hr]]]; [contradiction|]. exfalso. eapply Hall; eauto.
+  intros Hg Hn Hall Hp Hv Hgr. simpl. unfold padr_begin. rewrite Hp, Hv, Hgr. simpl.
+  assert (Hnn : 0 < norm_next v (next s) < 65536) by (unfold norm_next; rewrite Hg; exact Hn).
+  destruct (allocate_complete v s Hnn) as (sid & n' & Ha & Hc).
+  rewrite Ha, Hg. simpl. destruct Hc as [[Hne Hf]|[-> _]].
+  - apply allocate_sound in Ha; [|exact Hnn]. destruct Ha as [_ [?|[_ Hrg]]]; [contradiction|].
+    rewrite (Hall sid Hrg) in Hf. discriminate.
   - eexists. split; [reflexivity|]. simpl. apply lookup_insert.
+Qed.
+
+(* ------------------------------------------------------------------ the last-free-id race *)
+(* without reservation (HEAD): when exactly one id k is free, two PADRs that both pass allocateSessionID
+   before either reaches addToIndexes are both given k; after both have indexed, two sessions alive in the
+   table carry the same PPPoE session-id *)
+Lemma race_last_free_id v e s tA tB pA pB tgA tgB k :
+  v_reserve v = false -> 0 < norm_next v (next s) < 65536 -> 0 < k < 65536 -> pend s = [] ->
+  by_sid s !! k = None -> (forall j, 0 < j < 65536 -> j <> k -> by_sid s !! j <> None) ->
+  parse_tags pA = Ok tgA -> validate (e_H e) (e_ttl e) (e_now_ns e) (t_cookie tgA) tA = true -> e_grp e tA = true ->
+  parse_tags pB = Ok tgB -> validate (e_H e) (e_ttl e) (e_now_ns e) (t_cookie tgB) tB = true -> e_grp e tB = true ->
+  tA <> tB ->
+  exists s4 x y,
+    run v e s [PBEGIN tA pA; PBEGIN tB pB; PCOMMIT (ctr s); PCOMMIT (N.succ (ctr s))] =
+      Some (s4, [OPend k (ctr s); OPend k (N.succ (ctr s)); OPads k (ctr s); OPads k (N.succ (ctr s))]) /\
+    by_tup s4 !! tA = Some x /\ by_tup s4 !! tB = Some y /\ x <> y /\ s_sid x = k /\ s_sid y = k.
+Proof.
+  intros Hr Hn Hk Hpe Hfree Hall HpA HvA HgA HpB HvB HgB Hne.
+  assert (Halloc : forall s0, by_sid s0 = by_sid s -> 0 < norm_next v (next s0) < 65536 ->
+            exists n', allocate v s0 = Ok (k, n') /\ 0 < n' < 65536).
+  { intros s0 E Hn0. destruct (allocate_complete v s0 Hn0) as (sid & n' & Ha & Hc).
+    pose proof (allocate_sound _ _ _ _ Hn0 Ha) as [Hn' Hsid].
+    assert (Hu : forall j, id_used v s0 j = sid_used (by_sid s) j)
+      by (intros j; unfold id_used; rewrite E, Hr; simpl; apply orb_false_r).
+    destruct Hc as [[Hnz Hf]|[-> Hf]].
+    - destruct Hsid as [?|[_ Hrg]]; [contradiction|]. rewrite Hu in Hf. unfold sid_used in Hf.
+      destruct (N.eq_dec sid k) as [->|Hnk]; [eauto|]. exfalso. apply (Hall sid Hrg Hnk).
+      destruct (by_sid s !! sid); [discriminate | reflexivity].
+    - specialize (Hf k Hk). rewrite Hu in Hf. unfold sid_used in Hf. rewrite Hfree in Hf. discriminate. }
+  destruct (Halloc s eq_refl Hn) as (n1 & Ha1 & Hn1).
+  assert (Hkz : v_sid_guard v && N.eqb k 0 = false)
+    by (destruct (N.eqb_spec k 0); [lia | apply andb_false_r]).
+  assert (Hnn1 : 0 < norm_next v n1 < 65536) by (unfold norm_next; destruct (v_sid_guard v); [destruct (N.eqb_spec n1 0)|]; lia).
+  set (x := {| s_uid := ctr s; s_sid := k; s_tup := tA |}).
+  set (s1 := set_pend (bump_ctr (set_next s n1)) [x]).
+  destruct (Halloc s1 eq_refl Hnn1) as (n2 & Ha2 & Hn2).
+  set (y := {| s_uid := N.succ (ctr s); s_sid := k; s_tup := tB |}).
+  set (s2 := set_pend (bump_ctr (set_next s1 n2)) [x; y]).
+  set (s3 := add_indexes None x (set_pend s2 [y])).
+  set (s4 := add_indexes None y (set_pend s3 [])).
+  assert (H1 : step v e s (PBEGIN tA pA) = Some (s1, OPend k (ctr s))).
+  { cbn [step]. unfold padr_begin. rewrite HpA, HvA, HgA. cbn [negb]. rewrite Ha1, Hkz.
+    cbn [pend bump_ctr set_next]. rewrite Hpe. reflexivity. }
+  assert (H2 : step v e s1 (PBEGIN tB pB) = Some (s2, OPend k (N.succ (ctr s)))).
+  { cbn [step]. unfold padr_begin. rewrite HpB, HvB, HgB. cbn [negb]. rewrite Ha2, Hkz. reflexivity. }
+  assert (H3 : step v e s2 (PCOMMIT (ctr s)) = Some (s3, OPads k (ctr s))).
+  { cbn [step pend s2 set_pend take_pend]. cbn [s_uid x]. rewrite N.eqb_refl. reflexivity. }
+  assert (H4 : step v e s3 (PCOMMIT (N.succ (ctr s))) = Some (s4, OPads k (N.succ (ctr s)))).
+  { cbn [step pend s3 add_indexes set_pend take_pend]. cbn [s_uid y]. rewrite N.eqb_refl. reflexivity. }
+  exists s4, x, y. split.
+  - cbn [run]. rewrite H1. cbn [run]. rewrite H2. cbn [run]. rewrite H3. cbn [run]. rewrite H4. reflexivity.
+  - cbn [by_tup s4 s3 add_indexes set_pend s_tup x y].
+    split; [rewrite lookup_insert_ne by (intros Hx; apply Hne; symmetry; exact Hx); apply lookup_insert|].
+    split; [apply lookup_insert|]. split; [intros Hx; inversion Hx; lia | auto].
+Qed.
+
+(* ------------------------------------------------------------------ HEAD = reserving variant when PADRs do not overlap *)
+Definition no_overlap (o : op) : Prop := match o with PBEGIN _ _ | PCOMMIT _ => False | _ => True end.
+
+Lemma step_head_eq e s o : pend s = [] -> no_overlap o -> step Head e s o = step HeadReserve e s o.
+Proof.
+  intros Hp Ho.
+  assert (Hu : forall k, id_used Head s k = id_used HeadReserve s k)
+    by (intros k; unfold id_used; rewrite Hp; reflexivity).
+  assert (Ha : allocate Head s = allocate HeadReserve s).
+  { unfold allocate. change (norm_next Head (next s)) with (norm_next HeadReserve (next s)).
+    generalize alloc_fuel (norm_next HeadReserve (next s)). intros f n0. generalize n0 at 2 4.
+    induction f as [|f IH]; intros nxt; [reflexivity|]. rewrite !alloc_loop_unfold, Hu.
+    destruct (negb _); [reflexivity|]. destruct (N.eqb _ _); [reflexivity | apply IH]. }
+  destruct o as [t|t p|t p|u|t sid|t sid|t sid a|sid|sid t a|n]; try contradiction.
+  2: { cbn [step]. unfold padr_begin. rewrite Ha. reflexivity. }
+  all: reflexivity.
+Qed.
+
+Lemma step_pend_nil v e s o s' r : pend s = [] -> no_overlap o -> step v e s o = Some (s', r) -> pend s' = [].
+Proof.
+  intros Hp Ho Hs. destruct o as [t|t p|t p|u|t sid|t sid|t sid a|sid|sid t a|n]; try contradiction; simpl in Hs.
+  - destruct (e_grp e t); inversion Hs; subst; auto.
+  - destruct (padr_begin v e s t p) as [[s1 ox]|] eqn:Eb; [|discriminate].
+    destruct (padr_begin_frame _ _ _ _ _ _ _ Eb) as (_ & _ & _ & _ & _ & E6 & _).
+    destruct ox; inversion Hs; subst; simpl; congruence.
+  - destruct (by_sid s !! sid) as [x|]; [|inversion Hs; subst; auto].
+    destruct (owner_ok v x t); inversion Hs; subst; auto.
+  - destruct (by_sid s !! sid) as [x|]; [|inversion Hs; subst; auto].
+    destruct (owner_ok v x t); inversion Hs; subst; auto.
+  - destruct (by_sid s !! sid) as [x|]; [|inversion Hs; subst; auto].
+    destruct (owner_ok v x t); inversion Hs; subst; auto.
+  - destruct (by_sid s !! sid) as [x|]; inversion Hs; subst; auto.
+  - destruct (_ || _); [discriminate|]. inversion Hs; subst; auto.
+  - destruct (N.ltb n 65536); inversion Hs; subst; auto.
+Qed.
+
+Lemma run_head_eq e : forall ops s, pend s = [] -> Forall no_overlap ops -> run Head e s ops = run HeadReserve e s ops.
+Proof.
+  induction ops as [|o r IH]; intros s Hp Hall; [reflexivity|]. apply Forall_cons in Hall as [Ho Hall]. simpl.
+  rewrite (step_head_eq e s o Hp Ho). destruct (step HeadReserve e s o) as [[s1 x]|] eqn:Es; [|reflexivity].
+  rewrite IH; auto. eapply step_pend_nil; eauto.
+Qed.
+
+Lemma reserving_HeadReserve : reserving HeadReserve. Proof. split; reflexivity. Qed.
+Lemma reserving_Repaired : reserving Repaired. Proof. split; reflexivity. Qed.
+Lemma owning_Repaired : owning Repaired. Proof. split; [reflexivity | apply reserving_Repaired]. Qed.
+Lemma owning_HeadReserve : owning HeadReserve. Proof. split; [reflexivity | apply reserving_HeadReserve]. Qed.
+
+(* /repo HEAD, histories in which no two PADRs overlap between allocation and indexing: distinct non-zero ids *)
+Lemma sid_distinct_nonzero_head e ops s outs x y : Forall no_overlap ops ->
+  run Head e st0 ops = Some (s, outs) -> alive s x -> alive s y ->
+  0 < s_sid x < 65536 /\ (s_sid x = s_sid y -> x = y).
+Proof.
+  intros Hall Hr. rewrite run_head_eq in Hr; auto. eapply sid_distinct_nonzero; [apply reserving_HeadReserve | exact Hr].
+Qed.
+
+(* /repo HEAD: isolation on the two primary indexes (the lookup paths of PADT and session packets) *)
+Lemma isolation_head e s o s' r t : pend s = [] -> no_overlap o -> Inv s -> sender o = Some t ->
+  step Head e s o = Some (s', r) ->
+  (forall k x, by_sid s !! k = Some x -> s_tup x <> t -> by_sid s' !! k = Some x) /\
+  (forall t', t' <> t -> by_tup s' !! t' = by_tup s !! t') /\
+  (forall k x, by_sid s' !! k = Some x -> by_sid s !! k = Some x \/ s_tup x = t) /\
+  (forall u, r = OTerm u \/ r = OReach u -> exists x, live s x /\ s_uid x = u /\ s_tup x = t).
+Proof.
+  intros Hp Ho HI Hsnd Hs. rewrite step_head_eq in Hs; auto.
+  destruct (isolation_core _ _ _ _ _ _ _ owning_HeadReserve HI Hsnd Hs) as (I1 & I2 & I3 & _ & I5). auto.
 Qed.
 
 (* ------------------------------------------------------------------ tags *)
@@ -605,14 +1129,14 @@ Lemma sid_nonzero_refuted : exists e ops s outs x,
   run Defective e st0 ops = Some (s, outs) /\ live s x /\ s_sid x = 0 /\
   outs = [ORestored 0; OPads 0 1].
 Proof.
-  exists env0, [RESTORE 65535 tA; padr_of tB]. do 3 eexists.
+  exists env0, [RESTORE 65535 tA []; padr_of tB]. do 3 eexists.
   split; [vm_compute; reflexivity|]. split; [left; exists 0; vm_compute; reflexivity|].
   split; reflexivity.
 Qed.
 
 (* the same history under the repaired behaviour: id 1 *)
 Example sid_after_restore_repaired :
-  match run Repaired env0 st0 [RESTORE 65535 tA; padr_of tB] with
+  match run Repaired env0 st0 [RESTORE 65535 tA []; padr_of tB] with
   | Some (_, outs) => outs = [ORestored 0; OPads 1 1] | None => False end.
 Proof. vm_compute. reflexivity. Qed.
 
@@ -629,25 +1153,6 @@ Lemma admission v e s t p s' sid uid issued :
 Proof.
   intros Hunf Hwf Hwt Hs. apply padr_needs_cookie in Hs as (tg & Hp & Hv & _).
   eapply cookie_sound in Hv; eauto. destruct Hv as (ts & Hin & Hfresh & _). eauto.
-Qed.
-
-(* over histories: while only other hosts send packets, a session stays exactly where it is *)
-Lemma isolation_run e t0 : forall ops s s' outs k x,
-  Inv s -> by_sid s !! k = Some x -> s_tup x = t0 ->
-  Forall (fun o => exists t, sender o = Some t /\ t <> t0) ops ->
-  run Repaired e s ops = Some (s', outs) ->
-  by_sid s' !! k = Some x /\ by_tup s' !! t0 = by_tup s !! t0.
-Proof.
-  induction ops as [|o r IH]; simpl; intros s s' outs k x HI Hk Ht Hall Hr.
-  - inversion Hr; subst. auto.
-  - destruct (step Repaired e s o) as [[s1 y]|] eqn:Es; [|discriminate].
-    destruct (run Repaired e s1 r) as [[s2 ys]|] eqn:Er; [|discriminate]. inversion Hr; subst.
-    inversion Hall as [|? ? (t & Hsnd & Hne) Hall']; subst.
-    destruct (isolation _ _ _ _ _ _ HI Hsnd Es) as (I1 & I2 & _ & _).
-    assert (HI1 : Inv s1) by (eapply step_Inv; eauto).
-    assert (Hk1 : by_sid s1 !! k = Some x) by (apply I1; [exact Hk | congruence]).
-    destruct (IH s1 s' ys k x HI1 Hk1 eq_refl Hall' Er) as [R1 R2].
-    split; [exact R1|]. rewrite R2. apply I2. congruence.
 Qed.
 
 (* a concrete HMAC stand-in for which the unforgeability premise holds, for non-vacuity *)
@@ -764,3 +1269,42 @@ Proof.
     split; [eexists; vm_compute; reflexivity|]. split; [vm_compute; discriminate|].
     eexists; vm_compute; reflexivity.
 Qed.
+
+Lemma admission_pend v e s t p s' sid uid issued :
+  (forall tg d, parse_tags p = Ok tg -> firstn 32 (t_cookie tg) = e_H e d -> In d (map enc_issue issued)) ->
+  Forall wf_issue issued -> wf_tuple t ->
+  step v e s (PBEGIN t p) = Some (s', OPend sid uid) ->
+  exists ts, In (t, ts) issued /\ (e_now_ns e - Z.of_N ts * ns_per_s <= e_ttl e)%Z.
+Proof.
+  intros Hunf Hwf Hwt Hs. apply pbegin_needs_cookie in Hs as (tg & Hp & Hv & _).
+  eapply cookie_sound in Hv; eauto. destruct Hv as (ts & Hin & Hfresh & _). eauto.
+Qed.
+
+(* HEAD (unguarded removeFromIndexes): host A gives its session host B's Username and PADTs its own session;
+   B's usernameIndex entry is gone *)
+Definition bob : bytes := [98; 111; 98].
+Lemma attr_remove_refuted : exists e ops s outs xB s' r,
+  run Head e st0 ops = Some (s, outs) /\ by_attr s !! bob = Some xB /\ s_tup xB = tB /\ tA <> tB /\
+  step Head e s (PADT tA 8) = Some (s', r) /\ by_attr s' !! bob = None /\ by_sid s' !! 7 = Some xB.
+Proof.
+  exists env0, [RESTORE 7 tB bob; padr_of tA; SETATTR tA 8 bob]. do 5 eexists.
+  split; [vm_compute; reflexivity|]. split; [vm_compute; reflexivity|]. split; [reflexivity|].
+  split; [exact tA_ne_tB|]. split; [vm_compute; reflexivity|]. split; vm_compute; reflexivity.
+Qed.
+
+Example attr_remove_repaired :
+  match run Repaired env0 st0 [RESTORE 7 tB bob; padr_of tA; SETATTR tB 8 bob; SETATTR tA 8 bob; PADT tA 8] with
+  | Some (s, [ORestored 0; OPads 8 1; ONone; OReach 1; OTerm 1]) =>
+      (exists x, by_attr s !! bob = Some x /\ s_tup x = tB) /\ by_sid s !! 8 = None
+  | _ => False
+  end.
+Proof. vm_compute. split; [eexists; split; reflexivity | reflexivity]. Qed.
+
+(* every interleaving of two PADRs' halves with ids to spare, repaired: distinct ids *)
+Example interleaving_nonvacuous :
+  match run Repaired env0 st0 [PBEGIN tA (add_tag TagACCookie (generate toyH 1000 tA));
+                               PBEGIN tB (add_tag TagACCookie (generate toyH 1000 tB)); PCOMMIT 1; PCOMMIT 0] with
+  | Some (s, outs) => outs = [OPend 1 0; OPend 2 1; OPads 2 1; OPads 1 0] /\ pend s = []
+  | None => False
+  end.
+Proof. vm_compute. split; reflexivity. Qed.
